@@ -13,6 +13,8 @@ import z3
 from pyvc.contract import Contract, State
 from pyvc.values import SInt, SBool, SObj, SOpaque, PyRaise, Unsupported, zint, Sym
 from pyvc.nparr import Vec, Numpy, DType, qforall
+from pyvc.fp import SFp
+from pyvc.values import FIN
 from pyvc.interp import Loop
 from pyvc import lemmas
 
@@ -102,8 +104,71 @@ class AssembleCSR(Contract):
                 % (here, json.dumps({k: v for k, v in ob.model.items() if not k.startswith('k!')}), ob.clause))
 
 
+class Diagonal(Contract):
+    split_conjunctions = True
+
+    """Matrix.diagonal under the class invariant WF of the exported CSR triple:
+       diag[r] == the stored value at (r, r) if row r stores column r, else 0  -- for every number of rows (loop invariant)."""
+    prop = PROP
+    fn = 'matrix/_base:Matrix.diagonal'
+
+    def __init__(self):
+        def inv(cx, env, i):
+            S = self.S
+            diag = env.lookup('diag')
+            return z3.And(diag.n == S.n, self.spec(S, diag, i, cx.inv_mode == 'assume'))
+
+        def row_lemmas(cx, env, i):
+            S = self.S
+            ptr, ind, data = S.ptr, S.ind, S.data
+            cx.lemma('row-bounds', z3.And(0 <= ptr.sel(i), ptr.sel(i) <= ptr.sel(i + 1), ptr.sel(i + 1) <= data.n))
+            cx.lemma('row-sorted', qforall(2, lambda a, b: z3.Implies(z3.And(ptr.sel(i) <= a, a <= b, b < ptr.sel(i + 1)), ind.sel(a) <= ind.sel(b))))
+        self.loops = {0: Loop(inv, label='rows', match='in range(nrows)', on_body=row_lemmas)}
+
+    def replay(self, ob):
+        import os
+        here = os.path.dirname(os.path.dirname(os.path.abspath(__file__)))
+        return "import sys; sys.path.insert(0, %r)\nfrom native import c15b\nc15b.run_diagonal()\n" % here
+
+    def spec(self, S, diag, upto, skolem=False):
+        data, ind, ptr = S.data, S.ind, S.ptr
+        d = lambda r: SFp(*diag.sel(r))
+        hit = qforall(2, lambda r, k: z3.Implies(z3.And(0 <= r, r < upto, ptr.sel(r) <= k, k < ptr.sel(r + 1), ind.sel(k) == r), SFp.same(d(r), SFp(*data.sel(k)))))
+        # rows that do not store their diagonal: 0 (stated with a witness function for the stored position)
+        pos = S.pos
+        from pyvc.nparr import qexists
+        stored = (lambda r: z3.And(ptr.sel(r) <= pos(r), pos(r) < ptr.sel(r + 1), ind.sel(pos(r)) == r)) if skolem else \
+                 (lambda r: qexists(1, lambda k: z3.And(ptr.sel(r) <= k, k < ptr.sel(r + 1), ind.sel(k) == r)))
+        miss = qforall(1, lambda r: z3.Implies(z3.And(0 <= r, r < upto), z3.Or(z3.And(d(r).t == FIN, d(r).v == 0), stored(r))))
+        return z3.And(hit, miss)
+
+    def setup(self, cx):
+        n = cx.int('nrows')
+        cx.assume(n >= 0)
+        data = Vec.fresh(cx, 'data', 'fp')
+        ind = Vec.fresh(cx, 'indices', 'int', n=data.n)
+        ptr = Vec.fresh(cx, 'indptr', 'int', n=n + 1)
+        for nm, c in WF_clauses(data.n, ptr, ind, n):
+            cx.assume(c)
+        lemmas.mono(cx, ptr)
+        # strictly increasing within a row, transitive form (L-MONO applied to each row segment)
+        cx.assume(qforall(3, lambda r, a, b: z3.Implies(z3.And(0 <= r, r < n, ptr.sel(r) <= a, a < b, b < ptr.sel(r + 1)), ind.sel(a) < ind.sel(b))),
+                  axiom='L-MONO (strict, per row segment): adjacent strictly increasing => strictly increasing')
+        S = State(n=n, data=data, ind=ind, ptr=ptr, pos=z3.Function('stored_pos', z3.IntSort(), z3.IntSort()))
+        self.S = S
+        A = SObj('Matrix', attrs=dict(shape=(SInt(n), SInt(n)), dtype=DType('fp')), methods={'export': lambda ctx, s, form: (data, ind, ptr)})
+        S.args = (A,)
+        S.globals = {'numpy': Numpy()}
+        return S
+
+    def ensures(self, cx, S, result):
+        if not isinstance(result, Vec):
+            raise Unsupported('diagonal returned %r' % (result,))
+        return [('length', result.n == S.n), ('diagonal-entries', self.spec(S, result, S.n))]
+
+
 def contracts():
-    return [AssembleCSR()]
+    return [AssembleCSR(), Diagonal()]
 
 
 TRUSTED = ['pyvc symbolic executor and its Python model (DESIGN 2.3)',
